@@ -130,10 +130,13 @@ def run_case(kind, inner_name, sc, seed, aperf_kind, ret_u):
             kw["n_annotators_per_sample"] = pref
         kw["batch_size"] = int(sc["bs"])
         n_cand = len(conc["candidates"]) if conc["candidates"] is not None else sc["ns"]
+        # annotator performances on three scales: accuracies in [0, 1) / negative scores with a spread above 1
+        # (log-likelihoods) / large positive scores
+        scale = (lambda a: a, lambda a: -4.0 * a - 0.05, lambda a: 1.0 + 9.0 * a)[seed % 3]
         if aperf_kind == "annot":
-            kw["A_perf"] = rng.rand(na)
+            kw["A_perf"] = scale(rng.rand(na))
         elif aperf_kind == "pair":
-            kw["A_perf"] = rng.rand(n_cand, na)
+            kw["A_perf"] = scale(rng.rand(n_cand, na))
         bs = int(sc["bs"])
     else:
         qs = IntervalEstimationThreshold(missing_label=ml, random_state=seed)
